@@ -216,6 +216,14 @@ def populateReferrer (f : Fields) (parentUrl : Str) (scheme : Str) : Fields :=
     else setField f (lit "Referer") (stripUserinfo parentUrl)
   else f
 
+/-- the login part of `_populate_common_request`: `request.username, request.password = http_login` when a
+login is configured (`--http-user and --http-password`).  The URL's own user-info is NOT copied into these
+attributes: it stays in the URL, which is what binds it to its host across `Request.copy()`. -/
+def populateLogin (r : Req) (httpLogin : Option (Str × Str)) : Req :=
+  match httpLogin with
+  | some (u, p) => { r with username := u, password := p }
+  | none => r
+
 /-! ### basic authentication text (concrete instance of the `auth` parameter) -/
 
 /-- `s.encode('utf-8', 'replace')`: lone surrogates become `?` -/
